@@ -107,7 +107,7 @@ package bus
 
 // ---- authentication gate (C06)
 // set once while the server / the connection is being set up, before any message is consumed
-//@ immutable server.Router, channel.endpoint
+//@ immutable server.Router, channel.endpoint, objectImpl.signalHandler, objectImpl.meta
 // authd: the connection has passed authentication (abstract view of a Channel).
 // For the concrete *channel the ghost is tied to the capability map by its representation
 // invariant authd == capAuthed(capability).
@@ -450,3 +450,59 @@ package bus
 //@   requires msg != nil && from != nil && !o.signalsMutex.lockw && o.signalsMutex.lockr == 0
 //@   modifies everything
 //@   ensures[C13,C12] !o.signalsMutex.lockw && o.signalsMutex.lockr == 0
+
+// ---- properties (C14)
+// validated counts invocations of the service's validator (onPropertyChange); propevents counts
+// change events emitted through signalHandler.UpdateProperty, proplast is the id of the last one.
+//@ ghostfield validated int counter
+//@ ghostfield propevents int counter
+//@ ghostfield proplast int counter
+//@ fieldfunc (o *objectImpl) onPropertyChange(name string, data []byte) (err error)
+//@   trusted
+//@   modifies o.validated
+//@   ensures o.validated == old(o.validated) + 1
+//@ interface (v value.Value) Signature() (result string)
+//@   trusted
+//@   pure
+//@ func (m *object.MetaObject) PropertyID(name string, sig string) (result uint32, err error)
+//@   trusted
+//@   pure
+//@ func (o *signalHandler) UpdateProperty(id uint32, sig string, data []byte) (err error)
+//@   tags C14
+//@   requires !o.signalsMutex.lockw && o.signalsMutex.lockr == 0
+//@   modifies everything, o.propevents, o.proplast
+//@   ensures[C14] o.propevents == old(o.propevents) + 1 && o.proplast == id && !o.signalsMutex.lockw && o.signalsMutex.lockr == 0
+//@   ghost_at_return o.propevents := old(o.propevents) + 1
+//@   ghost_at_return o.proplast := id
+
+//@ guarded_by (o *objectImpl) o.propertiesMutex: o.properties, o.properties[*]
+//@   monitor o.properties != nil
+//@ func (o *objectImpl) saveProperty(name string, newValue value.Value) (err error)
+//@   tags C14
+//@   requires !o.propertiesMutex.lockw && o.propertiesMutex.lockr == 0
+//@   modifies everything
+//@   ensures[C14] err == nil && !o.propertiesMutex.lockw && o.propertiesMutex.lockr == 0
+//@   ensures[C14] has(o.properties, name) && o.properties[name] == newValue
+//@   ensures[C14] forall k string {at_unlock(has(o.properties, k))} :: k != name ==> (at_unlock(has(o.properties, k)) <==> at_lock(has(o.properties, k)))
+//@ func (o *objectImpl) Property(name value.Value) (result value.Value, err error)
+//@   tags C14
+//@   requires !o.propertiesMutex.lockw && o.propertiesMutex.lockr == 0
+//@   modifies everything
+//@   ensures[C14] !o.propertiesMutex.lockw && o.propertiesMutex.lockr == 0
+//@   ensures[C14] err == nil ==> typeis(name, value.StringValue) && at_lock(has(o.properties, unbox(name, value.StringValue))) && result == at_lock(o.properties[unbox(name, value.StringValue)])
+//@   ensures[C14] err != nil ==> !typeis(name, value.StringValue) || !at_lock(has(o.properties, unbox(name, value.StringValue)))
+
+// SetProperty: the validator runs exactly once, before anything is stored; a rejected or wrongly
+// typed write stores nothing and emits nothing; an accepted write stores the value and emits
+// exactly one change event for the property's id.
+//@ func (o *objectImpl) SetProperty(name value.Value, newValue value.Value) (err error)
+//@   tags C14
+//@   requires name != nil && newValue != nil && o.signalHandler != nil
+//@   requires !o.propertiesMutex.lockw && o.propertiesMutex.lockr == 0 && !o.signalHandler.signalsMutex.lockw && o.signalHandler.signalsMutex.lockr == 0
+//@   modifies everything
+//@   ensures[C14] o.validated <= old(o.validated) + 1
+//@   ensures[C14] err == nil ==> o.validated == old(o.validated) + 1 && o.signalHandler.propevents == old(o.signalHandler.propevents) + 1
+//@   ensures[C14] o.signalHandler.propevents == old(o.signalHandler.propevents) || (o.signalHandler.propevents == old(o.signalHandler.propevents) + 1 && o.validated == old(o.validated) + 1)
+//@   call saveProperty#1: assert[C14] o.validated == old(o.validated) + 1 && o.signalHandler.propevents == old(o.signalHandler.propevents)
+//@   call saveProperty#1: assert[C14] declared == sig || declared == "(" + sig + ")" || "(" + declared + ")" == sig
+//@   call UpdateProperty#1: assert[C14] has(o.properties, nameStr) && o.properties[nameStr] == newValue && arg0 == id
